@@ -195,6 +195,11 @@ func (r *ObRun) execute() (c *Ctx) {
 		}
 	}
 	r.Obs = c.obs
+	if c.skipRun {
+		// the harness declared this combination of case-split parameters redundant: nothing is claimed for it
+		// (and nothing is counted), in particular no reachability twin
+		r.Obs = nil
+	}
 	r.Encoded = c.encoded
 	r.Inputs = c.inputs
 	r.Uses = c.contractUse
